@@ -31,7 +31,9 @@ TRUSTED = ['SciPy format conversions', 'NumPy global RNG']
 PARTIAL = ['setup purity / format independence / seed reproducibility: correspondence only']
 # attributes that solving / smoothing may create (the caches of the model); anything else is reported
 ALLOWED_NEW = {'rho', 'rho_D_inv', 'rho_block_D_inv', 'schwarz_parameters', 'P', 'LU', 'L', 'LU_Map', 'block_D_inv', 'block_D',
-               'D_inv', 'Acsr', 'Acsc', 'Absr', 'symmetry'}
+               'D_inv', 'Acsr', 'Acsc', 'Absr', 'symmetry',
+               # SciPy's own lazily computed flags on a sparse matrix (set by reading .has_sorted_indices / .has_canonical_format)
+               '_has_sorted_indices', '_has_canonical_format'}
 
 
 def snapshot_levels(ml):
@@ -96,10 +98,25 @@ def run(ctx):
              ('rs-pmisc', lambda A: pyamg.ruge_stuben_solver(sp.csr_array(A), CF='PMISc', max_coarse=3), 'sym'),
              ('sa-lloyd', lambda A: pyamg.smoothed_aggregation_solver(A, aggregate=('lloyd', {'ratio': 0.3}), max_coarse=3), 'sym'),
              ('air-cljp', lambda A: pyamg.air_solver(sp.csr_array(A), CF='CLJP', max_coarse=4), 'nonsym'),
-             ('air-filter', lambda A: pyamg.air_solver(sp.csr_array(A), filter_operator=(True, 0.2), max_coarse=4), 'nonsym')]
-    for eb in extra:
+             ('air-filter', lambda A: pyamg.air_solver(sp.csr_array(A), filter_operator=(True, 0.2), max_coarse=4), 'nonsym'),
+             # option paths with their own scaled / filtered copies of the operator, and relaxation-type coarse solvers
+             # (which keep a work vector between calls)
+             ('sa-jacobi-local', lambda A: pyamg.smoothed_aggregation_solver(A, smooth=('jacobi', {'weighting': 'local'}), max_coarse=3), 'sym'),
+             ('sa-jacobi-block', lambda A: pyamg.smoothed_aggregation_solver(A, smooth=('jacobi', {'weighting': 'block'}), max_coarse=3), 'sym'),
+             ('sa-jacobi-filter', lambda A: pyamg.smoothed_aggregation_solver(A, smooth=('jacobi', {'filter_entries': True, 'weighting': 'local'}), max_coarse=3), 'sym'),
+             ('sa-richardson', lambda A: pyamg.smoothed_aggregation_solver(A, smooth=('richardson', {'degree': 2}), max_coarse=3), 'sym'),
+             ('sa-energy', lambda A: pyamg.smoothed_aggregation_solver(A, smooth=('energy', {'maxiter': 2}), max_coarse=3), 'sym'),
+             ('sa-evolution', lambda A: pyamg.smoothed_aggregation_solver(A, strength=('evolution', {'k': 2, 'epsilon': 4.0}), max_coarse=3), 'sym'),
+             ('sa-improve', lambda A: pyamg.smoothed_aggregation_solver(
+                 A, improve_candidates=[('gauss_seidel', {'sweep': 'symmetric', 'iterations': 2}), None], max_coarse=3), 'sym'),
+             ('sa-coarse-gs', lambda A: pyamg.smoothed_aggregation_solver(A, coarse_solver='gauss_seidel', max_coarse=6), 'sym'),
+             ('rs-coarse-jacobi', lambda A: pyamg.ruge_stuben_solver(sp.csr_array(A), coarse_solver=('jacobi', {'iterations': 5}), max_coarse=6), 'sym'),
+             ('rootnode-coarse-bgs', lambda A: pyamg.rootnode_solver(A, coarse_solver='block_gauss_seidel', max_coarse=6), 'sym'),
+             ('pairwise-default', lambda A: pyamg.pairwise_solver(sp.csr_array(A), max_coarse=4), 'sym')]
+    bsr_m = [m for m in mats if sp.issparse(m[1]) and m[1].format == 'bsr'][:1]
+    for ei, eb in enumerate(extra):
         if eb[2] == 'sym':
-            items += [(eb, m) for m in real[:2]]
+            items += [(eb, m) for m in (real[:2] if ei < 6 else [real[ei % len(real)]] + (bsr_m if 'block' in eb[0] or ei % 3 == 0 else []))]
         else:
             items.append((eb, ('upwind-6x6', hier.nonsym_matrix(6))))
     for (bname, f, kind), (mname, A) in items:
